@@ -750,7 +750,7 @@ def flatten(self, *dims, **kwargs):
         return b.flatten(dims, insert=insert)
 
     # Create a new flattened axis
-    newaxis = MultiAxis(*[ax for ax in self.axes if ax.name in dims])
+    newaxis = MultiAxis(*[ax.copy() for ax in self.axes if ax.name in dims]) # own member axes: the grouped labels / name are cached
 
     # New axes
     newaxes = [ax for ax in self.axes if ax.name not in dims]
@@ -798,7 +798,7 @@ def unflatten(self, axis=None):
 
     newshape = self.shape[:axis] + tuple(ax.size for ax in group.axes) + self.shape[axis+1:]
     newvalues = self.values.reshape(newshape)
-    newaxes = self.axes[:axis] + group.axes + self.axes[axis+1:]
+    newaxes = self.axes[:axis] + [ax.copy() for ax in group.axes] + self.axes[axis+1:]
 
     return self._constructor(newvalues, newaxes, **self.attrs)
 
